@@ -147,6 +147,71 @@ theorem C17_written_only_on_success {α : Type} (fs : α → Option File) (input
         | error e => simp [h1, h2, h3, h4] at h
         | ok out => simp [h1, h2, h3, h4]
 
+/-! ## (5) names: exactly the listed names are read, whatever else the directory holds -/
+
+/-- The outcome depends only on what the file system holds under the LISTED names: two file systems that
+agree on them (and differ arbitrarily elsewhere — neighbours whose names a listed name would match as a
+pattern, backup copies, same stems with other suffixes, the previous content of the output path) give the
+same outcome. -/
+theorem C17_reads_only_listed {α : Type} (fs fs' : α → Option File) (inputs : List α)
+    (h : ∀ p ∈ inputs, fs p = fs' p) : assembleRtf fs inputs = assembleRtf fs' inputs := by
+  have h1 : inputs.filter (fun p => (fs p).isNone) = inputs.filter (fun p => (fs' p).isNone) :=
+    List.filter_congr (fun p hp => by rw [h p hp])
+  have h2 : inputs.filterMap fs = inputs.filterMap fs' := filterMap_congr' fs fs' inputs h
+  unfold assembleRtf
+  rw [h1, h2]
+
+/-- Names do not matter at all, only the contents found under them, in argument order: the lines written
+(and whether the call returns normally or fails) are a function of `inputs.map fs`. -/
+theorem C17_contents_only {α β : Type} (fs : α → Option File) (fs' : β → Option File)
+    (inputs : List α) (inputs' : List β) (h : inputs.map fs = inputs'.map fs') :
+    (assembleRtf fs inputs).written = (assembleRtf fs' inputs').written ∧
+    ((assembleRtf fs inputs).result = .returned ↔ (assembleRtf fs' inputs').result = .returned) ∧
+    ((assembleRtf fs inputs).result = .indexError ↔ (assembleRtf fs' inputs').result = .indexError) := by
+  have hk := assembleRtf_kind fs inputs
+  have hk' := assembleRtf_kind fs' inputs'
+  rw [h, ← hk'] at hk
+  have h1 := congrArg Prod.fst hk
+  have h2 := congrArg Prod.snd hk
+  simp only at h1 h2
+  refine ⟨h2, ?_, ?_⟩
+  · rw [kind_returned, kind_returned, h1]
+  · rw [kind_indexError, kind_indexError, h1]
+
+/-- Decoys: files added to the directory under names that are not listed change nothing. -/
+theorem C17_decoys {α : Type} [DecidableEq α] (d decoys : Fs α) (inputs : List α) (out : α)
+    (h : ∀ p ∈ inputs, ∀ e ∈ decoys, e.1 ≠ p) :
+    (assembleIn (decoys ++ d) inputs out).1 = (assembleIn d inputs out).1 := by
+  simp only [assembleIn]
+  exact C17_reads_only_listed _ _ inputs (fun p hp => read_append_of_not_key decoys d p (h p hp))
+
+/-- The only name whose content can change is the output path: every other file of the directory (the
+inputs, their neighbours) reads the same afterwards. -/
+theorem C17_others_untouched {α : Type} [DecidableEq α] (d : Fs α) (inputs : List α) (out q : α)
+    (hq : out ≠ q) : (assembleIn d inputs out).2.read q = d.read q := by
+  simp only [assembleIn]
+  cases (assembleRtf d.read inputs).written with
+  | none => rfl
+  | some ls => simp [Fs.write, Fs.read, hq]
+
+/-- on success the output path holds exactly the lines of the outcome … -/
+theorem C17_output_holds {α : Type} [DecidableEq α] (d : Fs α) (inputs : List α) (out : α) (ls : File)
+    (h : (assembleIn d inputs out).1.written = some ls) : (assembleIn d inputs out).2.read out = some ls := by
+  simp only [assembleIn] at h ⊢
+  rw [h]; simp [Fs.write, Fs.read]
+
+/-- … and when nothing is written (empty list, missing input, IndexError) the directory is unchanged,
+the previous content of the output path included -/
+theorem C17_nothing_written {α : Type} [DecidableEq α] (d : Fs α) (inputs : List α) (out : α)
+    (h : (assembleIn d inputs out).1.result ≠ .returned ∨ inputs = []) : (assembleIn d inputs out).2 = d := by
+  have hw : (assembleRtf d.read inputs).written = none := by
+    rcases h with h | h
+    · cases hw : (assembleRtf d.read inputs).written with
+      | none => rfl
+      | some ls => exact absurd (C17_written_only_on_success _ _ ls hw) h
+    · subst h; rfl
+  simp only [assembleIn, hw]
+
 /-! ## the decidable cut -/
 
 theorem C17_cut_sound (f : File) (s : Shaped) (h : decompose f = some s) : s.file = f ∧ s.ok = true :=
@@ -207,6 +272,11 @@ example : AllOk [exA, exB, exC] ∧ (∀ t ∈ [exA, exB, exC], wellFormedDoc t.
   · intro t ht; simp only [List.mem_cons, List.not_mem_nil, or_false] at ht
     rcases ht with rfl | rfl <;> decide
   · decide
+
+/-- a listed name that contains pattern characters is still one name: with `t14[1].rtf` and its neighbour
+`t141.rtf` in the directory, listing the former yields the former's lines -/
+example : (assembleIn [("t141.rtf", exB.file), ("t14[1].rtf", exA.file), ("out.rtf", [])]
+    ["t14[1].rtf"] "out.rtf").2.read "out.rtf" = some exA.file := by decide
 
 /-! ## what the unrepaired helper did (kept as a record of D24; not part of the property) -/
 
